@@ -477,6 +477,23 @@ def _cross_vld(g):
 C('cross', 'vld-cb', _cross_vld, heavy=True)
 
 
+def _cross_warm(g):
+    # warm restart: the start tensor already reproduces the validation data
+    # (it IS the target, as after a converged earlier run)
+    n = [3, 4, 3]
+    T = tt(g, n, 2)
+    A = dense(T)
+
+    def f(I):
+        return A[tuple(np.asarray(I).T)]
+    I = idx(g, n, 8)
+    return (f, [G.copy() for G in T]), dict(nswp=2, I_vld=I, y_vld=f(I),
+        e_vld=1e-6)
+
+
+C('cross', 'warm-start-already-within-e_vld', _cross_warm, heavy=True)
+
+
 def _cross_act(g):
     n = [3, 4, 3]
     X1, X2 = tt(g, n, 2), tt(g, n, 1)
